@@ -78,4 +78,11 @@ def newEnv {σ : Type} (S : Store σ) (empty : σ) (selfAddr : Bytes × GoErr) (
 def ParsersOk : Prop :=
   Go.parseIP [] = [] ∧ ∀ s, (Go.parseCIDR s).2.2 = none → (Go.parseCIDR s).2.1.isSome
 
+/-- `net.ParseCIDR` yields CIDR masks: a four-byte mask is `p` ones followed by zeros (true of Go's).  Not needed for
+`Gen.server.New = newServer` (Proofs/CodeConfig.lean `new_eq`); it is what makes `newEnv.IpdbNew` agree with the translated
+`ipdb.New` on everything `ParseCIDR` can hand to it (`IpdbNew_faithful`): `ipdb.New` itself accepts ANY four-byte mask
+(e.g. 255.0.255.0), which has no prefix length, and there `newEnv.IpdbNew` refuses (`IpdbNew_noncanonical_mask`). -/
+def CidrMaskOk : Prop :=
+  ∀ s x n, Go.parseCIDR s = (x, some n, none) → n.Mask.length = 4 → (prefixOf n.Mask).isSome
+
 end PsaDhcp.Code
